@@ -181,8 +181,10 @@ func (m *Machine) inlineCall(c *Config, call ssa.CallInstruction, callee *ssa.Fu
 func (m *Machine) contractCall(c *Config, call ssa.CallInstruction, callee *ssa.Function, fc *FuncContract, args []Value) (*Config, []*Config) {
 	st := c.st
 	env := &Env{m: m, vars: map[string]CV{}, lets: fc.Lets, cur: st, bound: map[string]CV{}, atCallSite: true}
+	env.paramNames = map[string]bool{}
 	for i, p := range callee.Params {
 		env.vars[p.Name()] = CV{V: args[i], Signed: isSigned(p.Type()), Typ: p.Type()}
+		env.paramNames[p.Name()] = true
 	}
 	key := funcKey(callee)
 	if m.usedContracts != nil {
@@ -298,7 +300,9 @@ func (m *Machine) bindResults(env *Env, sig *types.Signature, res []Value) {
 			env.vars["result"] = cv
 		}
 		if i == n-1 && isErrorType(rv.Type()) {
-			env.vars["err"] = cv
+			if !env.paramNames["err"] {
+				env.vars["err"] = cv
+			}
 		}
 	}
 }
@@ -311,6 +315,7 @@ func (m *Machine) havocLoc(c *Config, env *Env, loc string) {
 		v := m.ghost(st, loc)
 		if t, ok := v.(Term); ok {
 			st.ghost[loc] = m.syms.fresh(loc, t.Sort)
+			m.ghostInvariant(st, loc)
 		}
 		return
 	}
@@ -606,6 +611,9 @@ func (m *Machine) pureExternal(c *Config, call ssa.CallInstruction, full string,
 		rt := sig.Results().At(i).Type()
 		res = append(res, m.uninterpResult(st, fmt.Sprintf("%s.r%d", fname, i), ats, rt, functional))
 	}
+	if full == "reflect.MakeSlice" && len(ats) >= 2 {
+		m.allocBound(c, ats[1], call.Pos())
+	}
 	if allocExternals[full] && nres == 1 {
 		if t, ok := res[0].(Term); ok {
 			m.cur.freshTerms[t.S] = true
@@ -685,4 +693,13 @@ func (m *Machine) uninterpResult(st *State, fname string, args []Term, rt types.
 		return v
 	}
 	return m.freshValue(fname, rt)
+}
+
+// ghostInvariant re-establishes the type invariant of a ghost after it was havocked:
+// the read position never exceeds the input length.
+func (m *Machine) ghostInvariant(st *State, name string) {
+	if name == "@pos" {
+		in := m.ghost(st, "@in").(Term)
+		st.assume(BVUle(st.ghost["@pos"].(Term), app(SBV64, "blen", in)))
+	}
 }
